@@ -49,6 +49,8 @@ Verdict(c) ==
       fails |-> SetToSeq({[c |-> f.c, at |-> f.at, known |-> KnownKey(c, f)] : f \in fs}),
       ieq |-> IF IEq(c) THEN "1" ELSE "0",
       sites |-> IF c.err # "" \/ c.guard = "fail" THEN 0 ELSE CountSites(c.pat, c.plus, c.in, "Node"),
+      \* instances per the P-layer, also for cases that ended in an error (C06: none => no effect, no error)
+      psites |-> IF c.guard = "fail" THEN 0 ELSE CountSites(c.pat, c.plus, c.in, "Node"),
       err |-> c.err]
 
 Init == l = 1 /\ verdicts = <<>>
